@@ -36,5 +36,22 @@ os.makedirs(d, exist_ok=True)
 shutil.copy(os.path.join(wt, 'patch.diff'), d)
 shutil.copy(os.path.join(wt, 'demo.py'), d)
 meta['caught_by'] = [r['check'] for r in meta['ran'] if r['exit'] == 1 and r['violations']]
+meta['caught_with_replay'] = [r['check'] for r in meta['ran'] if r['exit'] == 1 and any('no-failing-input-found' not in v for v in r['violations'])]
+old_path = os.path.join(d, 'meta.json')
+if os.path.exists(old_path):                      # a re-evaluation keeps the hand-written description and history
+    try:
+        old = json.load(open(old_path))
+        for k in ('change', 'what', 'needs', 'history'):
+            if k in old and k not in meta:
+                meta[k] = old[k]
+    except Exception:
+        pass
+note = os.path.join(wt, 'meta_note.json')           # optional: written by the author of the change
+if os.path.exists(note):
+    try:
+        for k, v in json.load(open(note)).items():
+            meta.setdefault(k, v)
+    except Exception:
+        pass
 json.dump(meta, open(os.path.join(d, 'meta.json'), 'w'), indent=1)
 print('caught by:', meta['caught_by'])
